@@ -279,6 +279,44 @@ func judge(c Case, snapDir, work string) (string, []string) {
 	if !bytes.Equal(got, c.Blob) {
 		return fmt.Sprintf("after restart and completion the cached bytes differ from the blob: got %x want %x", got, c.Blob), nil
 	}
+	// Later life of the same directories: the blob is evicted / removed from the cache and
+	// downloaded once more. Whatever the crash left behind must not make that download
+	// report pieces it does not have or commit anything but the blob.
+	if err := a.archive.DeleteTorrent(a.digest); err != nil {
+		return fmt.Sprintf("after restart the completed torrent cannot be deleted: %v", err), nil
+	}
+	t2, err := a.archive.CreateTorrent("ns", a.digest)
+	if err != nil {
+		return fmt.Sprintf("after restart, completion and removal the download cannot be started again: CreateTorrent: %v", err), nil
+	}
+	for i := 0; i < t2.NumPieces(); i++ {
+		if !t2.HasPiece(i) {
+			continue
+		}
+		pr, err := t2.GetPieceReader(i)
+		if err != nil {
+			return fmt.Sprintf("re-download after removal: piece %d is reported complete but GetPieceReader fails: %v", i, err), nil
+		}
+		gotp, _ := io.ReadAll(pr)
+		pr.Close()
+		if !bytes.Equal(gotp, pieceBytes(c, i)) {
+			return fmt.Sprintf("re-download after removal: piece %d is reported complete before it was written and holds %x, the blob has %x there", i, gotp, pieceBytes(c, i)), nil
+		}
+	}
+	if t2.Complete() {
+		if got, err := readCache(); err != nil || !bytes.Equal(got, c.Blob) {
+			return fmt.Sprintf("re-download after removal: torrent reports complete at once but the cache holds %x, %v (blob %x)", got, err, c.Blob), nil
+		}
+	}
+	for _, i := range t2.MissingPieces() {
+		if err := t2.WritePiece(piecereader.NewBuffer(pieceBytes(c, i)), i); err != nil {
+			return fmt.Sprintf("re-download after removal: piece %d cannot be written: %v", i, err), nil
+		}
+	}
+	if got, err := readCache(); !t2.Complete() || err != nil || !bytes.Equal(got, c.Blob) {
+		return fmt.Sprintf("re-download after removal does not end with the blob in the cache: complete=%v err=%v got %x", t2.Complete(), err, got), nil
+	}
+	classes = append(classes, "redownload-after-removal-checked")
 	return "", classes
 }
 
@@ -357,7 +395,7 @@ func TestProp(t *testing.T) {
 	pbt.Main(t, pbt.Spec{
 		ID:    "C04",
 		Level: "fault_enumeration",
-		Rule: "rapid generates agent download workloads (blob 0-48 bytes, piece length so that there are 0-8 pieces; CreateTorrent through a TorrentArchive with a fake metainfo client, pieces written in a drawn permutation, some preceded by a corrupted or over-long write, sometimes only a prefix of the pieces, sometimes a repeated CreateTorrent); each runs in a child under ptrace and EVERY prefix of its mutating system calls under the agent's download+cache directories is snapshotted (evaluations = distinct crash trees per workload). Restart oracle on a copy: the cache never serves bytes different from the blob; CreateTorrent succeeds; Complete() implies cached bytes = blob; every piece the restored bitfield reports complete reads back the blob's bytes; writing the missing pieces completes the torrent with cached bytes = blob. non-trivial = crash state strictly inside an operation whose tree differs from the trees at that operation's start and end; distinct by (blob, piece length, tree hash)",
+		Rule: "rapid generates agent download workloads (blob 0-48 bytes, piece length so that there are 0-8 pieces; CreateTorrent through a TorrentArchive with a fake metainfo client, pieces written in a drawn permutation, some preceded by a corrupted or over-long write, sometimes only a prefix of the pieces, sometimes a repeated CreateTorrent); each runs in a child under ptrace and EVERY prefix of its mutating system calls under the agent's download+cache directories is snapshotted (evaluations = distinct crash trees per workload). Restart oracle on a copy: the cache never serves bytes different from the blob; CreateTorrent succeeds; Complete() implies cached bytes = blob; every piece the restored bitfield reports complete reads back the blob's bytes; writing the missing pieces completes the torrent with cached bytes = blob; then the blob is removed (DeleteTorrent) and downloaded once more on the same directories, which must again report only pieces it has and end with cached bytes = blob. non-trivial = crash state strictly inside an operation whose tree differs from the trees at that operation's start and end; distinct by (blob, piece length, tree hash)",
 		Assumptions: []string{
 			"process-crash model: completed system calls persist; a single write system call is atomic",
 			"metainfo is available again after restart (fake metainfo client), as it is from the tracker in production",
